@@ -60,7 +60,7 @@ class Trace:
 class _UpdateMachine(Machine):
     """self.<attr> reads see the stores made earlier in the same call; comparisons of the screening error are decided by the scenario"""
 
-    def ev(self, e):
+    def _ev0(self, e):
         if isinstance(e, ast.Attribute) and isinstance(e.value, ast.Name) and e.value.id == "self" and self.env.get("self") == Opaque("self") \
                 and e.attr in self.self_state and isinstance(e.ctx, ast.Load):
             return self.self_state[e.attr]
@@ -80,6 +80,14 @@ class _UpdateMachine(Machine):
                 self.trace.events.append(Event("elemstore", base.text, args=[idx], value=v, node=t))
                 return
         super().assign(t, v)
+
+    def ev(self, e):
+        # an elementwise (in)equality of the new applied potential and the remembered one: decided by `.any()` / `.all()` on it
+        if isinstance(e, ast.Compare) and len(e.ops) == 1 and isinstance(e.ops[0], (ast.Eq, ast.NotEq)):
+            a, b = self._ev0(e.left), self._ev0(e.comparators[0])
+            if isinstance(a, Opaque) and isinstance(b, Opaque) and {a.text, b.text} == {"A_new", "self.current_A_applied"}:
+                return Opaque(f"({a.text} {'==' if isinstance(e.ops[0], ast.Eq) else '!='} {b.text})", ("cmp", "eq" if isinstance(e.ops[0], ast.Eq) else "ne", a, b))
+        return self._ev0(e)
 
     def compare(self, op, a, b, node):
         def err_index(x):
@@ -149,6 +157,15 @@ def trace_update(repo, sc) -> Trace:
             tr.events.append(Event("call", name, args, kwargs, node=node))
         if short == "array_equal" and len(args) == 2:
             return sc["dynamic_A"] == "unchanged"
+        # (A_new != baseline).any() / np.any(A_new != baseline) / (A_new == baseline).all()
+        cmpv = recv if isinstance(recv, Opaque) and recv.parts and recv.parts[0] == "cmp" else (
+            args[0] if args and isinstance(args[0], Opaque) and args[0].parts and args[0].parts[0] == "cmp" else None)
+        if cmpv is not None and short in ("any", "all"):
+            tr.events.append(Event("call", "array_equal", list(cmpv.parts[2:4]), {}, node=node))     # an exact comparison, like array_equal
+            changed = sc["dynamic_A"] != "unchanged"
+            if cmpv.parts[1] == "ne":
+                return changed if short == "any" else changed
+            return (not changed) if short == "all" else (not changed)
         if short in ("allclose", "array_equiv") and len(args) >= 2:
             tr.events.append(Event("call", name, args, kwargs, node=node))
             return sc["dynamic_A"] == "unchanged"
